@@ -379,3 +379,36 @@ def multi_fault(rng):
         out += ["blk 1, 2", "blk 3, 4"]
     files["main.asm"] = ("\n".join(out) + "\n").encode()
     return ["main.asm"], files, "multi-fault/%d" % kind
+
+
+def overloaded_operands(rng):
+    """operands typed by a #subruledef with OVERLOADED alternatives of equal size ({v: u8} / {v: s8} / {v: i8} / a literal),
+    directly or through a second sub-rule level, one or two such operands per instruction: lines that are same-size
+    ambiguous (2..4 candidates through ONE top-level rule, differing only in the nested alternative) or for which every
+    alternative is out of range.  Successes are unaffected by the candidate order; the DIAGNOSTICS list the candidates."""
+    alts = rng.shuffle(["{v: u8} => v", "{v: s8} => v", "{v: i8} => v", "{v: u8} => v ^ 0x00"])[:rng.range(2, 4)]
+    if rng.chance(0.4):
+        alts.insert(rng.below(len(alts) + 1), rng.choice(["5 => 0x05", "zero => 0x00", "0 => 0x00"]))
+    out = ["#subruledef imm", "{"] + ["    " + a for a in alts] + ["}"]
+    two_levels = rng.chance(0.5)
+    if two_levels:
+        out += ["#subruledef opnd", "{", "    {i: imm} => i"] + (["    [{i: imm}] => i"] if rng.chance(0.5) else []) + ["}"]
+    t = "opnd" if two_levels else "imm"
+    name = rng.choice(["", " cpu"])
+    out += ["#ruledef%s" % name, "{", "    ld {a: %s} => 0xaa @ a" % t, "    add {a: %s}, {b: imm} => 0xbb @ a @ b" % t,
+            "    st {a: imm} => 0xcc @ a", "    nop => 0x00", "}"]
+    vals = ["5", "5", "0", "1", "0x7f", "0x10", "zero", "-1", "200", "0x1234", "-300", "127 + 1", "x", "1000"]
+    lines = []
+    for _ in range(rng.range(1, 5)):
+        k = rng.below(4)
+        if k == 0:
+            lines.append("ld %s" % rng.choice(vals))
+        elif k == 1:
+            lines.append("add %s, %s" % (rng.choice(vals), rng.choice(vals)))
+        elif k == 2:
+            lines.append("st %s" % rng.choice(vals))
+        else:
+            lines.append("ld [%s]" % rng.choice(vals) if two_levels else "nop")
+    out += ["x = %d" % rng.choice([5, 300, -200])] + lines
+    matching = 0 if rng.chance(0.2) else 1
+    return ["main.asm"], {"main.asm": ("\n".join(out) + "\n").encode()}, "overloaded", matching
